@@ -207,8 +207,23 @@ def check_siblings(ctx, passed_paths):
         if good:
             R[k] = r[2]
     ctx.floor("R04.4", "is_rejected arms", len(R), 4)
-    for k in sorted(set(P) & set(R)):
-        a, b = needed_parts(P[k]), needed_parts(R[k])
+    pairs = []
+    for k in sorted(set(P) | set(R)):
+        kind = k.split("/")[0]
+        pk = k if k in P else (kind if kind in P else None)
+        rk = k if k in R else (kind if kind in R else None)
+        if pk is None or rk is None:
+            # one side has no arm for this (threshold kind, expiry) case at all
+            cand = [x for x in (P if pk is None else R) if x.split("/")[0] == kind]
+            if cand:
+                pk = pk or cand[0]
+                rk = rk or cand[0]
+            else:
+                ctx.ob("R04.4", "pair/%s" % k, False, detail="case %s is decided by only one of is_passed / is_rejected" % k)
+                continue
+        pairs.append((k, pk, rk))
+    for k, pk, rk in pairs:
+        a, b = needed_parts(P[pk]), needed_parts(R[rk])
         if a is None and b is None:
             # AbsoluteCount: total - weight_needed on the rejection side
             ctx.ob("R04.4", "pair/%s" % k, True, trivial=True)
